@@ -13,7 +13,7 @@ from ..core import rule, AnalysisError
 from ..engine import rx
 from ..engine.facts import dotted, const, src, walk_func, str_value
 from ..engine import pattern as P
-from .common import calls, pn, access_paths
+from .common import calls, pn, return_leaves, guards_of, arms, access_paths
 
 MARKUP = set("&<>\"'")
 
@@ -242,24 +242,24 @@ def decode_type(ctx):
         ctx.violation("closure", db.where(ga), "Decode.__getattr__ does not return a function defined for the requested encoding (returns %s): the decoding rules cannot be followed" % [src(r.value) for r in rets_ga])
         return
     x = pn(fn, 0)
-    rets = [r for r in walk_func(fn) if isinstance(r, ast.Return)]
-    ctx.require(len(rets) >= 3, "decode has %d returns" % len(rets))
+    leaves = return_leaves(fn)
+    ctx.require(len(leaves) >= 3, "decode has %d alternatives" % len(leaves))
     kinds = []
-    for r in rets:
-        t = src(r.value)
+    isstr = "isinstance(%s, str)" % x
+    isbytes = "isinstance(%s, bytes)" % x
+    for v, g in leaves:
+        t = src(v)
         if t == x:
-            ifn = getattr(r, "_parent", None)
-            ok = isinstance(ifn, ast.If) and P.matches(ifn.test, "isinstance(%s, str)" % x) and r in ifn.body
             kinds.append("str-passthrough")
-            ctx.check(ok, "branch:str", db.where(r), "x returned unchanged outside the isinstance(x, str) branch", "str returned as is")
-        elif P.matches(r.value, "%s(str(%s))" % (fn.name, x)):
+            ctx.check((isstr, True) in g, "branch:str", db.where(v), "x returned unchanged outside the isinstance(x, str) branch", "str returned as is")
+        elif P.matches(v, "%s(str(%s))" % (fn.name, x)):
             kinds.append("other")
-            ctx.ok("branch:other", db.where(r), "other objects: decode(str(x))")
-        elif P.matches(r.value, "str(%s, encoding=%s)" % (x, keyp)) or P.matches(r.value, "str(%s, %s)" % (x, keyp)) or P.matches(r.value, "%s.decode(%s)" % (x, keyp)):
+            ctx.check((isstr, False) in g and (isbytes, False) in g, "branch:other", db.where(v), "decode(str(x)) is not limited to objects that are neither str nor bytes", "other objects: decode(str(x))")
+        elif P.matches(v, "str(%s, encoding=%s)" % (x, keyp)) or P.matches(v, "str(%s, %s)" % (x, keyp)) or P.matches(v, "%s.decode(%s)" % (x, keyp)):
             kinds.append("bytes")
-            ctx.ok("branch:bytes", db.where(r), "bytes decoded with the attribute name as encoding")
+            ctx.check((isstr, False) in g and ((isbytes, True) in g or (isbytes, False) not in g), "branch:bytes", db.where(v), "bytes decoding is reached for objects that are not bytes", "bytes decoded with the attribute name as encoding")
         else:
-            ctx.violation("branch:%s" % t[:20], db.where(r), "decode returns `%s`, which is not known to be str" % t)
+            ctx.violation("branch:%s" % t[:20], db.where(v), "decode returns `%s`, which is not known to be str" % t)
     ctx.check(set(kinds) == {"str-passthrough", "other", "bytes"}, "branches", db.where(fn), "decode lacks one of the str/bytes/other branches (%s)" % kinds, "three branches")
     inst = db.module_assign("filters", "decode")
     ctx.check(src(inst) == "Decode()", "instance", db.where(inst), "filters.decode is %s" % src(inst), "decode = Decode()")
